@@ -193,9 +193,9 @@ def rand_state(rng):
             [rng.randrange(256), rng.choice([0xc0, 0xe0, 0x20, 0x00]), rng.randrange(256), rng.randrange(256)][:rng.choice([2, 3, 4, 4])]
     for _ in range(rng.randrange(3)):
         s[(B.K_THRMASK, rng.randrange(4), rng.choice([0, 1, 2, 0x7f, 0x80, 0xfe, 0xff]))] = [rng.randrange(64)]
-    for _ in range(rng.randrange(3)):
-        st = rng.choice([0, 1, 2, 3, 5, 7])
-        s[(B.K_LED, rng.choice([0, 1, 2, 3, 254, 255]), rng.choice([0, 1, 2, 3, 255]))] = \
+    for _ in range(rng.randrange(5)):
+        st = rng.choice([0, 1, 2, 3, 3, 5, 7])
+        s[(B.K_LED, rng.choice([0, 1, 255]), rng.choice([0, 1, 255]))] = \
             [st, rng.choice([0, 0xff, 5, 0xf9]), rng.choice([1, 2, 100, 0xf9, rng.randrange(1, 0xfa)]), rng.randrange(1, 7),
              rng.choice([0, 0xff, 7, 0xf9]), rng.randrange(256), rng.randrange(1, 7), rng.randrange(128)]
     if rng.random() < 0.5:
